@@ -380,6 +380,16 @@ func main() {
 		mk(gen.FanOut(k, 16, 1, []int{2, 2, 2}, false))
 		mk(gen.FanOut(k, 8, 0, []int{0, 0, 0}, false))
 	}
+	// endpoint lists with two-digit indices: a processor with 10..13 inputs and outputs, 11..12
+	// external inputs/outputs, chains of 11..12 processors
+	for _, n := range []int{10, 11, 12, 13} {
+		perm := rng.Perm(n)
+		mk(gen.Crossbar(n, 8, nil))
+		mk(gen.Crossbar(n, 16, perm))
+	}
+	for _, k := range []int{11, 12} {
+		mk(gen.Chain(k, 8, []string{"inc r0"}, 0, 0))
+	}
 	nRand := 900
 	if tier == "thorough" {
 		nRand = 6000
